@@ -102,6 +102,111 @@ def register3(E):
         return base_next(it)
     E.it_next = it_next3
 
+    # ---- async byte readers (futures::io): Cursor / Take / Chain over byte lists; every read completes at once
+    class ReaderM:
+        def __init__(self, kind, **kw): self.kind = kind; self.__dict__.update(kw)
+        def read_all(self, limit=None):
+            if self.kind == 'cursor':
+                n = len(self.data) - self.pos if limit is None else min(limit, len(self.data) - self.pos)
+                out = self.data[self.pos:self.pos + n]; self.pos += n; return out
+            if self.kind == 'take':
+                lim = self.n if limit is None else min(self.n, limit)
+                out = rd(self.inner).read_all(lim); self.n -= len(out); return out
+            if self.kind == 'chain':
+                out = rd(self.a).read_all(limit)
+                if limit is None or len(out) < limit: out = out + rd(self.b).read_all(None if limit is None else limit - len(out))
+                return out
+            raise EngineError('reader kind ' + self.kind)
+        def __repr__(self): return f'<reader {self.kind}>'
+    E.ReaderM = ReaderM
+    def rd(x):
+        x = deref(x)
+        while isinstance(x, Agg) and x.ty in ('Pin', 'Box') : x = deref(x.f[0])
+        if isinstance(x, ReaderM): return x
+        if isinstance(x, (Str, SliceRef)) or (isinstance(x, Vec)):      # &[u8] implements AsyncRead
+            raise EngineError('byte-slice reader must be wrapped by the harness: ' + repr(x)[:80])
+        raise EngineError(f'not a reader: {x!r}')
+    E.rd = rd
+    @R(r'^(futures::io::)?Cursor::<.*>::new$')
+    def _(e, c, a):
+        v = deref(a[0]); data = list(v.l) if isinstance(v, Vec) else list(sbytes(v))
+        return ReaderM('cursor', data=data, pos=0)
+    @R(r' as AsyncReadExt>::take$')
+    def _(e, c, a):
+        if not isinstance(a[1], int): raise EngineError('symbolic take limit')
+        return ReaderM('take', inner=a[0], n=a[1])
+    @R(r' as AsyncReadExt>::chain::<')
+    def _(e, c, a): return ReaderM('chain', a=a[0], b=a[1])
+    @R(r' as AsyncReadExt>::read_to_end$')
+    def _(e, c, a):
+        out = rd(a[0]).read_all(); deref(a[1]).l.extend(out)
+        return StubFuture(OK(len(out)))
+    @R(r'^Box::<.*(AsyncRead|Cursor|impl ).*>::new$')
+    def _(e, c, a): return a[0]
+
+    # ---- byte-slice helpers (bstr / core::slice)
+    def bl(x):
+        """(list, lo, hi) view of a byte container"""
+        x = deref(x)
+        if isinstance(x, Str): return x.b, 0, len(x.b)
+        if isinstance(x, SliceRef): return x.l, x.lo, x.hi
+        if isinstance(x, Vec): return x.l, 0, len(x.l)
+        if isinstance(x, Agg) and x.ty == 'arr': return x.f, 0, len(x.f)
+        raise EngineError(f'not bytes: {x!r}')
+    E.bl = bl
+    @R(r'as ByteSlice>::lines_with_terminator$')
+    def _(e, c, a):
+        l, lo, hi = bl(a[0]); out = []; start = lo
+        for i in range(lo, hi):
+            if e.branch(l[i] == 10): out.append(SliceRef(l, start, i + 1)); start = i + 1
+        if start < hi: out.append(SliceRef(l, start, hi))
+        return It('list', l=out, pos=0)
+    @R(r'^core::slice::<impl \[.*\]>::(strip_suffix|strip_prefix)::<')
+    def _(e, c, a):
+        l, lo, hi = bl(a[0]); pl, plo, phi = bl(a[1]); p = pl[plo:phi]; n = len(p)
+        if n > hi - lo: return NONE()
+        at = hi - n if 'strip_suffix' in c else lo
+        cs = []
+        for x, y in zip(l[at:at + n], p):
+            if isinstance(x, int) and isinstance(y, int):
+                if x != y: return NONE()
+            else: cs.append(x == y)
+        ok = True if not cs else (cs[0] if len(cs) == 1 else z3.And(*cs))
+        if not e.branch(ok): return NONE()
+        return SOME(SliceRef(l, lo, hi - n) if 'strip_suffix' in c else SliceRef(l, lo + n, hi))
+    @R(r'^core::slice::<impl \[.*\]>::(starts_with|ends_with)$')
+    def _(e, c, a):
+        l, lo, hi = bl(a[0]); pl, plo, phi = bl(a[1]); p = pl[plo:phi]; n = len(p)
+        if n > hi - lo: return False
+        at = hi - n if 'ends_with' in c else lo
+        return e.branch(E.eq_val(SliceRef(l, at, at + n), SliceRef(pl, plo, phi)))
+    @R(r'^core::slice::<impl \[.*\]>::as_slice$|^<\[u8(; \d+)?\] as AsRef<\[u8\]>>::as_ref$|^(core|std)::array::<impl \[.*\]>::as_slice$')
+    def _(e, c, a):
+        l, lo, hi = bl(a[0]); return SliceRef(l, lo, hi)
+    @R(r'^core::slice::<impl \[.*\]>::get(_mut)?::<(.*)>$')
+    def _(e, c, a):
+        l, lo, hi = bl(a[0]); idx = a[1]
+        if isinstance(idx, int): return SOME(Ref(l, lo + idx)) if idx < hi - lo else NONE()
+        if isinstance(idx, Agg) and idx.ty and 'Range' in idx.ty:
+            s_, t_ = (idx.f[0], idx.f[1]) if len(idx.f) == 2 else (idx.f[0], hi - lo)
+            if 'RangeTo' in idx.ty and len(idx.f) == 1: s_, t_ = 0, idx.f[0]
+            if not (isinstance(s_, int) and isinstance(t_, int)): raise EngineError('symbolic range in slice::get')
+            return SOME(SliceRef(l, lo + s_, lo + t_)) if s_ <= t_ <= hi - lo else NONE()
+        raise EngineError(f'slice::get index {idx!r}')
+    @R(r'^core::slice::<impl \[.*\]>::(first|last)$')
+    def _(e, c, a):
+        l, lo, hi = bl(a[0])
+        if hi == lo: return NONE()
+        return SOME(Ref(l, lo if c.endswith('first') else hi - 1))
+    @R(r'Option::<.*>::or_else::<')
+    def _(e, c, a): return a[0] if a[0].v == 'Some' else e.closure_call(a[1], [])
+    @R(r'Option::<.*>::or$')
+    def _(e, c, a): return a[0] if a[0].v == 'Some' else a[1]
+    @R(r'Option::<.*>::and_then::<')
+    def _(e, c, a): return e.closure_call(a[1], [a[0].f[0]]) if a[0].v == 'Some' else NONE()
+    @R(r'Option::<.*>::ok_or::<|Option::<.*>::ok_or$')
+    def _(e, c, a): return OK(a[0].f[0]) if a[0].v == 'Some' else ERR(a[1])
+
     # ---- ordering
     PRIM = r'(usize|u8|u16|u32|u64|u128|isize|i8|i16|i32|i64|i128|char|bool)'
     def prim_lt(ty, x, y):
